@@ -6,6 +6,7 @@
 //                            to each other and produces many same-date ties
 //   VERIF_VM_ORDER=2,0,1     start order of the initial actors (changes the pids, hence every pid-ordered tie-break)
 //   VERIF_VM_HOSTS=<n>       n hosts of different speeds, one link per pair with different latencies (actor i runs on host i%n)
+//   a native run prints "RELOCK <actor> <mutex>" just before an actor locks a mutex it already holds
 // and the process leaves with _exit() once the result line is printed (the global S4U objects of a deadlocked program
 // cannot be destroyed cleanly).  The same binary runs
 //   * natively                     (every S4U call is one simcall; prints FINAL / DEADLOCK / ASSERT lines on stdout),
@@ -197,6 +198,12 @@ static void body(int me)
     }
     switch (o.k) {
       case 'L':
+        if (heldm.count(o.a) && not under_mc && not under_replay) {
+          // the owner locks its (non-recursive) mutex again: documented as a self-deadlock. Tell the oracle that this run
+          // went through that call (C14 gives the runs that come back from it their own key).
+          printf("RELOCK %d %d\n", me, o.a);
+          fflush(stdout);
+        }
         mutexes[o.a]->lock();
         heldm.insert(o.a);
         break;
